@@ -10,7 +10,7 @@ PROPERTY = "C03"
 RULE = ("enum: every composition (n+, n-, n0) with N<=25 (quick) / N<=44 (thorough), each presented through 2 random arrangements and one segregated (block) arrangement, "
         "seed-chosen arrangements and spellings; hyp: random compositions to 120 (quick) / 300 (thorough) residues with "
         "boosted regime boundaries (n0 in 16..20, n+ = n-, equal blocks, single minority charge), 2 presentations each. "
-        "maximisers-after-kappa: every composition with 5<=N<=10/13 at its brute-forced delta-maximiser, queried after get_kappa() on the same object; long-neighbours: 2-4 compositions of one length 101..160 differing by one residue, analysed one after another in the same process; random cases <=40 residues may follow a warm-up history. Oracle: (i) all presentations return the same value; (ii) get_deltaMax(True) returns (v, s) with v equal to the plain "
+        "long-no-neutrals: majority block 128..160/170 with every minority count (quick: one in sixteen); every case has one segregated (block) presentation; maximisers-after-kappa: every composition with 5<=N<=10/13 at its brute-forced delta-maximiser, queried after get_kappa() on the same object; long-neighbours: 2-4 compositions of one length 101..160 differing by one residue, analysed one after another in the same process; random cases <=40 residues may follow a warm-up history. Oracle: (i) all presentations return the same value; (ii) get_deltaMax(True) returns (v, s) with v equal to the plain "
         "call, s a rearrangement of the input whose exact reference delta equals v; (iii) v equals the maximum of exact "
         "rational delta over the documented candidate family (either reading where the prose is ambiguous). Non-trivial: "
         "a charged residue present and reference delta-max > 0; distinct by composition+presentation.")
@@ -74,7 +74,9 @@ def enum_cases(tier, seed):
 @st.composite
 def hyp_case(draw, max_len):
     P, M, Z = draw(gens.compositions(max_len=max_len))
-    return {"comp": [P, M, Z], "seqs": [draw(gens.by_composition(P, M, Z)) for _ in range(2)],
+    s_ = draw(st.integers(0, Z)); m_ = draw(st.integers(0, Z - s_))
+    blocky = "0" * s_ + (("+" * P + "0" * m_ + "-" * M) if draw(st.booleans()) else ("-" * M + "0" * m_ + "+" * P)) + "0" * (Z - s_ - m_)
+    return {"comp": [P, M, Z], "seqs": [draw(gens.by_composition(P, M, Z)), draw(gens.spelled(blocky))],
             "warm": draw(gens.warmups(3)) if P + M + Z <= 40 else []}
 
 
@@ -88,6 +90,19 @@ def maximiser_cases(tier, seed):
         best = patmax.table(P + M + Z)[(P, M, Z)]
         yield {"comp": [P, M, Z], "seqs": [util.spell(best, rnd)], "warm": [["get_kappa", None]]}
         yield {"comp": [P, M, Z], "seqs": [util.spell(best, rnd)], "warm": [["get_deltaMax", [True]], ["get_delta", None]]}
+
+
+def long_no_neutral_cases(tier, seed):
+    """Both charge types, no neutral residue, majority block of 128 residues or more: every minority count (thorough) / a sixteenth (quick)."""
+    rnd = random.Random(seed + 9)
+    i = 0
+    for maj in range(128, 171 if tier == "thorough" else 161):
+        for mino in range(1, maj // 2 + 1):
+            i += 1
+            if tier == "quick" and i % 16 != seed % 16:
+                continue
+            P, M = (maj, mino) if rnd.random() < 0.5 else (mino, maj)
+            yield {"comp": [P, M, 0], "seqs": [util.spell(util.arrange(P, M, 0, rnd), rnd)]}
 
 
 def check_neighbours(ctx, case):
@@ -111,6 +126,7 @@ def parts(tier):
              strategy=lambda t: hyp_case(120 if t == "quick" else 300),
              examples={"quick": 800, "thorough": 6400}, shards={"quick": 16, "thorough": 16}),
         Part("enum-maximisers-after-kappa", "enum", check=check_comp, cases=maximiser_cases, exhaustive=True, shards={"quick": 8, "thorough": 16}),
+        Part("enum-long-no-neutrals", "enum", check=check_comp, cases=long_no_neutral_cases, exhaustive=False, shards={"quick": 16, "thorough": 16}),
         Part("hyp-long-neighbours", "hyp", check=check_neighbours, strategy=lambda t: neighbour_case(), shrink=False,
              examples={"quick": 64, "thorough": 1600}, shards={"quick": 16, "thorough": 16}),
     ]
